@@ -162,6 +162,19 @@ class Contract:
         import copy
         if getattr(self, 'denom', None):
             return denom_variants(self, tier)
+        if getattr(self, 'div_consts', None) and tier == 'thorough' and getattr(self, 'div_full_lanes', False):
+            # 8-bit SIMD lanes, thorough tier: FULL DOMAIN, one lane's post-condition per solver call -- every dividend and
+            # every divisor of that lane, the other lanes' operands unconstrained (80-110 s per lane): a proof, not a lattice
+            out = []
+            nlanes = max(int(re.search(r'lane (\d+)$', l).group(1)) for l, e in self.ensures if re.search(r'lane (\d+)$', l)) + 1
+            for i in range(nlanes):
+                c = copy.copy(self)
+                c.ensures = [(l, e) for l, e in self.ensures if not re.search(r'lane (\d+)$', l) or int(re.search(r'lane (\d+)$', l).group(1)) == i]
+                c.part = 'lane %d, all dividends and divisors' % i
+                c.partial = None
+                c.div_consts = None
+                out.append(c)
+            return out
         if getattr(self, 'div_consts', None):
             out = []
             for v, reqs, lanes, tag in self.div_consts:
@@ -674,6 +687,7 @@ def div_mode(k, t, ylane, xlane=None):
             lanes = [i for i in range(t.W) if i % 2 == par]
             k.div_consts.append((v, ['%s == %dull' % (ylane(i), v) for i in lanes], set(lanes), tag))
     k.div_quick = {3, (1 << (t.bits - 1)) + 1}
+    k.div_full_lanes = (t.bits == 8)
     k.partial = 'two obligations per divisor d in the lattice {%s} (mod 2^%d): the even (odd) lanes divide by d while the divisors of the odd (even) lanes are unconstrained, zero included; all dividends' % (', '.join(str(v) for v in lat), t.bits)
     return k
 
